@@ -60,6 +60,11 @@ def build(rng):
     same_speed = rng.random() < 0.5
     same_scan = rng.random() < 0.5
     ys = [rng.choice([0.1, 0.2, 0.3, 0.45, 0.2]) for _ in range(n)]
+    near = rng.random() < 0.2
+    if near:
+        # tracks side by side, far from the origin, a tenth of a micron apart: different structures whose values are almost equal
+        y0 = rng.choice([24.0, 3.0])
+        ys = [y0 + 0.0001 * i for i in range(n)]
     wgs = []
     for i in range(n):
         wg = Waveguide(speed=20 if same_speed else rng.choice([10, 20, 30]), scan=3 if same_scan else rng.randint(1, 6),
@@ -81,7 +86,7 @@ def build(rng):
         wg.linear([1.0, 0, 0])
         wg.end()
         if rng.random() < 0.6:
-            wg.power = rng.choice([300, 300, 450, 0])
+            wg.power = rng.choice([300, 300, 450, 0]) if not near else rng.choice([300.0, 300.001, 300.002])
         if rng.random() < 0.3:
             wg.obs = rng.choice(['ok', '', 'check this'])
         if rng.random() < 0.2:
@@ -168,7 +173,14 @@ def run(ctx):
         with gcommon.Scratch() as d, core.quiet():
             err = None
             try:
-                dev.xlsx(verbose=False, book_name=str(d / 'book.xlsx'), columns_names=' '.join(sel), suppr_redd_cols=suppr, static_preamble=static)
+                extra = {}
+                if rng.random() < 0.3:
+                    # the user pre-fills preamble fields (free text), some of them fields a constant column may be handed over to
+                    for t in rng.sample(['power', 'speed', 'scan', 'depth', 'wl', 'laboratory', 'material'], rng.randint(1, 3)):
+                        extra[t] = rng.choice(['nominal', 'see logbook', '300 mW (nominal)'])
+                ctx.count('sheet.extra_preamble_info', str(bool(extra)))
+                dev.xlsx(verbose=False, book_name=str(d / 'book.xlsx'), columns_names=' '.join(sel), suppr_redd_cols=suppr, static_preamble=static,
+                         **({'extra_preamble_info': dict(extra)} if extra else {}))
                 titles, rows, pre = read_sheet(d / 'book.xlsx')
             except Exception as e:
                 err = f'{type(e).__name__}: {e}'
